@@ -26,6 +26,7 @@ type Solver struct {
 	NUnsat  int
 	NUnk    int
 	NErr    int
+	NRetry  int
 	Time    time.Duration
 	MaxTime time.Duration
 	log     io.Writer
@@ -35,7 +36,7 @@ type Solver struct {
 var SolverTimeoutMs = 30000
 var SolverKind = "z3" // z3 | z3-new | cvc5
 var SlowLog io.Writer
-var QueryLogDir = ""  // if set, every worker logs its SMT dialogue there
+var QueryLogDir = "" // if set, every worker logs its SMT dialogue there
 
 func newSolver(id int) *Solver {
 	var cmd *exec.Cmd
@@ -112,6 +113,14 @@ func (s *Solver) roundtrip(cmd string) (string, bool) {
 func (s *Solver) Check() string {
 	t0 := time.Now()
 	r, ok := s.roundtrip("(check-sat)")
+	if ok && (r == "unknown" || r == "timeout") && s.name != "cvc5" {
+		// one retry with four times the time limit (a loaded machine turns slow queries into
+		// timeouts); the verdict is still the solver's
+		s.Send(fmt.Sprintf("(set-option :timeout %d)", 4*SolverTimeoutMs))
+		r, ok = s.roundtrip("(check-sat)")
+		s.Send(fmt.Sprintf("(set-option :timeout %d)", SolverTimeoutMs))
+		s.NRetry++
+	}
 	d := time.Since(t0)
 	if SlowLog != nil && d > 2*time.Second {
 		fmt.Fprintf(SlowLog, "SLOW %v -> %s\n", d, r)
